@@ -10,6 +10,7 @@ package main
 // havoc.go apply. secp256k1 and Keccak themselves are outside the technique.
 
 import (
+	"encoding/base64"
 	"fmt"
 	"strings"
 )
@@ -34,6 +35,16 @@ func (m *Machine) decToken(s StrVal, prefix string) *Blob {
 		return nil
 	}
 	return m.encBlobs[k]
+}
+
+// sigCopy: encoding or decoding a signature yields a fresh copy of its bytes (own recovery byte).
+func (m *Machine) sigCopy(b *Blob) *Blob {
+	if b.kind != "sig" || b.cell == nil {
+		return b
+	}
+	nb := *b
+	nb.cell = m.newObj(m.load(PtrVal{obj: b.cell}), nil, "sig.v")
+	return &nb
 }
 
 func wrapCrypto(name string, f func(m *Machine, g *Goroutine, c *callCtx) (Value, stepStatus)) {
@@ -65,7 +76,18 @@ func init() {
 		if h == nil || h.kind != "hash" || !ok {
 			panic(abortf("crypto.Sign on a non-model hash or key"))
 		}
-		return TupleVal{m.blobSlice(&Blob{kind: "sig", v: TupleVal{h.v, StrVal{s: k.identity}}}), IfaceVal{}}, stNext
+		// the recovery id: 0 or 1, fixed by key and message - arbitrary here unless the harness asked for one
+		ov := m.nextRecID
+		m.nextRecID = nil
+		if ov == nil {
+			ov = m.symInt("recid", 8, false)
+			m.assume(tLe(ov, mkInt(1)))
+		}
+		return TupleVal{m.blobSlice(&Blob{kind: "sig", v: TupleVal{h.v, StrVal{s: k.identity}, ov}, cell: m.newObj(ov, nil, "sig.v")}), IfaceVal{}}, stNext
+	})
+	regV(repoMod+"/request.verifNextRecID", func(m *Machine, g *Goroutine, a []Value) Value {
+		m.nextRecID = a[0].(*Term)
+		return nil
 	})
 	wrapCrypto("(*encoding/base64.Encoding).EncodeToString", func(m *Machine, g *Goroutine, c *callCtx) (Value, stepStatus) {
 		b := blobOf(c.args[1])
@@ -80,6 +102,14 @@ func init() {
 			if b := m.decToken(c.args[1].(StrVal), "b64"); b != nil {
 				return TupleVal{m.blobSlice(b), IfaceVal{}}, stNext
 			}
+			if s := c.args[1].(StrVal); s.concrete() {
+				// an ordinary concrete string: decoded exactly (standard alphabet, as the repo uses)
+				raw, err := base64.StdEncoding.DecodeString(s.s)
+				if err != nil {
+					return TupleVal{SliceVal{}, m.freshError("illegal base64 data")}, stNext
+				}
+				return TupleVal{m.bytesSlice(raw), IfaceVal{}}, stNext
+			}
 		}
 		return hvB64(m, g, c)
 	})
@@ -87,7 +117,7 @@ func init() {
 	reg("encoding/hex.EncodeToString", func(m *Machine, g *Goroutine, c *callCtx) (Value, stepStatus) {
 		if m.cryptoOn() {
 			if b := blobOf(c.args[0]); b != nil {
-				return m.encToken(b, "hex"), stNext
+				return m.encToken(m.sigCopy(b), "hex"), stNext
 			}
 		}
 		return prevHexEnc(m, g, c)
@@ -96,7 +126,7 @@ func init() {
 	reg("encoding/hex.DecodeString", func(m *Machine, g *Goroutine, c *callCtx) (Value, stepStatus) {
 		if m.cryptoOn() {
 			if b := m.decToken(c.args[0].(StrVal), "hex"); b != nil {
-				return TupleVal{m.blobSlice(b), IfaceVal{}}, stNext
+				return TupleVal{m.blobSlice(m.sigCopy(b)), IfaceVal{}}, stNext
 			}
 		}
 		return prevHexDec(m, g, c)
@@ -143,6 +173,16 @@ func init() {
 			return TupleVal{PtrVal{}, m.freshError("invalid signature")}, stNext
 		}
 		sv := sig.v.(TupleVal)
+		if sig.cell != nil && len(sv) > 2 {
+			// the recovery byte as it is now: anything but 0/1 is refused, the other id recovers another key
+			v := m.load(PtrVal{obj: sig.cell}).(*Term)
+			if !m.branch(tLe(v, mkInt(1))) {
+				return TupleVal{PtrVal{}, m.freshError("invalid signature recovery id")}, stNext
+			}
+			if !m.branch(tEq(v, sv[2].(*Term))) {
+				return TupleVal{m.nativePtr(&cryptoKey{identity: "0x000000000000000000000000000000000000dEaD"}, "pubkey"), IfaceVal{}}, stNext
+			}
+		}
 		if m.branch(m.snapSame(sv[0], h.v).(*Term)) {
 			return TupleVal{m.nativePtr(&cryptoKey{identity: sv[1].(StrVal).s}, "pubkey"), IfaceVal{}}, stNext
 		}
